@@ -436,7 +436,11 @@ class CHECK(core.Check):
             "to all ten Convert2* functions and StripQuotes; values written in literal form (repr of ints, finite floats, "
             "complex, True/False/None, quote-free strings in quotes, points) for the round trip; a sample of literals "
             "inside scripts for eleven literal contexts through the real Builder and a 2-tick run. Exhaustive: all "
-            "strings of length <= 3 (quick) / <= 4 (thorough) over the alphabet 0 1 a e x j . - _ \" (all ten functions). "
+            "strings of length <= 3 (quick) / <= 4 (thorough) over the alphabet 0 1 a e x j . - _ \" (all ten functions); every "
+            "literal form at the values Python treats as false (0, -0, 0x0, 0.0, -0.0, 0j, empty quoted strings, false/no/none, "
+            "points of zeros, lat/lon of zero degrees and minutes in the four hemispheres, both letter cases and the comma "
+            "form: about 140 texts) through all ten functions and all eleven script contexts, plus padded and one-character "
+            "variants of them; quoted literals with runs of blanks / tabs / other in-line white space in the script contexts. "
             "Non-trivial = at least one function returns a value (not ValueError); distinct by text.")
     TRUSTED = ["correspondence: Convert2* of the working tree called in-process on the same text as the Lean model "
                "(engine 'literal'); script contexts through Builder.build",
